@@ -10,7 +10,8 @@ RULE = ('one case = a seeded history (init, add-key shared/independent/clone, sn
         'metadata integers, 12-byte content windows), no chunk/file digest and no key secret occurs raw, hex or base64 (3 alignments) '
         'anywhere outside ciphertext; every chunk is nonce||AEAD under KDF(shared key, digest); snapshot objects are exactly two '
         'byte strings; key files contain only kdf, kdf_params and the encrypted private section; names are the documented MACs; '
-        'every nonce was drawn from the (simulated) system RNG and no two ciphertexts under one key share a nonce. '
+        'no two ciphertexts under one key (user key: key files and every snapshot of that user, across all processes of the history) share '
+        'a nonce; nonces that did not come from the simulated system RNG are counted as a probe. '
         'distinct_nontrivial = distinct event-log digests among histories with >= 1 snapshot')
 COMPONENTS = {
     'real': ['replicat.repository.Repository (init, add_key, snapshot, delete, clean)', 'replicat.utils.adapters (AEAD, MAC, KDF adapters)', 'cryptography AEAD'],
